@@ -145,7 +145,8 @@ def run_cases(ctx, b, model, table, cases, sets_of, label):
             m = X.parse_run_reply(replies[ci][1 + j], table)
             drop = X.ORDER_DEPENDENT | ({"OVERLOADED_ATTR", "UNKNOWN_ATTR_IN_ENTITY"} if c.cls == "subtype-cycle" else set())
             a, bb = X.canon(ob["diags"], drop=drop), X.canon(m["diags"], drop=drop)
-            st_ok = ob["status"] == m["status"] or (c.cls == "subtype-cycle" and ob["status"] == "signal11")
+            st_ok = ob["status"] == m["status"] or (c.cls == "subtype-cycle" and ob["status"] == "signal11") or \
+                (m.get("diverges") == "1" and (ob["status"] == "abort" or ob["status"].startswith("signal")))
             if ob["status"] == "signal11":
                 ctx.hist("observations", "SIGSEGV after a subtype cycle was reported (attribute look-up through cyclic supertypes)")
                 a = [x for x in a if x[0] in CYCLE_CODES]; bb = [x for x in bb if x[0] in CYCLE_CODES]
@@ -206,6 +207,7 @@ def prepare(ctx):
         "one schema per file, no USE/REFERENCE, no INCLUDE; line numbers of SYNTAX/UNTERMINATED_STRING diagnostics are not modelled",
         "which cycle path the CONTINUATION messages follow depends on hash-table order and is not modelled (their arguments are still checked by theorem C20_cycle_names_on_cycle and by the oracle)",
     ]
+    X.seed_generated()
     proof_ok = ctx.lean("StepModel.Props.C20", exes=["m_c20"], extractors=EXTRACTORS)
     if not os.path.exists(ctx.model_exe("m_c20")) or not proof_ok:
         ok, out = L.lake_build(["m_c20"])
